@@ -150,6 +150,10 @@ pub enum Op {
     Clean(Sel),
     DropCleanable(Sel),
     SetConfig { auto: bool, thr: u8, pct: u8 },
+    /// the same operation with *relative* selectors: selector k addresses the k-th most recent
+    /// live entry of its table (0 = newest). Lets generated idioms refer to the objects they
+    /// have just created; resolved into an absolute operation when it is executed.
+    Rel(Box<Op>),
 }
 
 #[derive(Clone, Debug, PartialEq, Eq, Hash, Serialize, Deserialize, Default)]
